@@ -164,6 +164,50 @@ func vfDeviations(def *conformancev1.TestCase) []vfDeviation {
 				}
 				a.Error.Details[i] = repl
 			}})
+			if exp.Error.Details[i].MessageName() == vfReqInfoName {
+				// a RequestInfo detail is compared like the first payload's request info
+				eri := &conformancev1.ConformancePayload_RequestInfo{}
+				if exp.Error.Details[i].UnmarshalTo(eri) == nil {
+					mut := func(f func(ri *conformancev1.ConformancePayload_RequestInfo)) func(a *conformancev1.ClientResponseResult) {
+						return func(a *conformancev1.ClientResponseResult) { vfMutDetailReqInfo(a, i, f) }
+					}
+					if eri.TimeoutMs != nil {
+						t := eri.GetTimeoutMs()
+						add(vfDeviation{class: "detail-timeout-above", field: "timeout", pos: i, want: "timeout", apply: mut(func(ri *conformancev1.ConformancePayload_RequestInfo) { ri.TimeoutMs = proto.Int64(t + 1) })})
+						add(vfDeviation{class: "detail-timeout-above", field: "timeout", pos: 100 + i, want: "timeout", apply: mut(func(ri *conformancev1.ConformancePayload_RequestInfo) { ri.TimeoutMs = proto.Int64(t + timeoutGraceModel) })})
+						add(vfDeviation{class: "detail-timeout-missing", field: "timeout", pos: i, want: "did not echo back a timeout", apply: mut(func(ri *conformancev1.ConformancePayload_RequestInfo) { ri.TimeoutMs = nil })})
+						if t-timeoutGraceModel-1 >= 0 {
+							add(vfDeviation{class: "detail-timeout-below", field: "timeout", pos: i, want: "timeout", apply: mut(func(ri *conformancev1.ConformancePayload_RequestInfo) { ri.TimeoutMs = proto.Int64(t - timeoutGraceModel - 1) })})
+						}
+					} else {
+						add(vfDeviation{class: "detail-timeout-unexpected", field: "timeout", pos: i, want: "but none was expected", apply: mut(func(ri *conformancev1.ConformancePayload_RequestInfo) { ri.TimeoutMs = proto.Int64(100) })})
+					}
+					for k, h := range eri.RequestHeaders {
+						k, h := k, h
+						add(vfDeviation{class: "detail-reqheader-missing", field: "error-details", pos: i*100 + k, want: fmt.Sprintf("actual request headers missing %q", strings.ToLower(h.Name)), apply: mut(func(ri *conformancev1.ConformancePayload_RequestInfo) {
+							ri.RequestHeaders = append(ri.RequestHeaders[:k:k], ri.RequestHeaders[k+1:]...)
+						})})
+						add(vfDeviation{class: "detail-reqheader-value", field: "error-details", pos: i*100 + k, want: fmt.Sprintf("request headers has incorrect values for %q", strings.ToLower(h.Name)), apply: mut(func(ri *conformancev1.ConformancePayload_RequestInfo) {
+							ri.RequestHeaders[k].Value = append(append([]string{}, ri.RequestHeaders[k].Value...), "verif-extra-value")
+						})})
+					}
+					add(vfDeviation{class: "detail-echo-added", field: "error-details", pos: i, want: "request messages to be described", apply: mut(func(ri *conformancev1.ConformancePayload_RequestInfo) {
+						extra, _ := anypb.New(&conformancev1.UnaryRequest{RequestData: []byte("verif")})
+						ri.Requests = append(ri.Requests, extra)
+					})})
+					for j := range eri.Requests {
+						j := j
+						add(vfDeviation{class: "detail-echo-dropped", field: "error-details", pos: i*100 + j, want: "request messages to be described", apply: mut(func(ri *conformancev1.ConformancePayload_RequestInfo) {
+							ri.Requests = append(ri.Requests[:j:j], ri.Requests[j+1:]...)
+						})})
+						if alt := vfAlterRequestAny(eri.Requests[j]); alt != nil {
+							add(vfDeviation{class: "detail-echo-altered", field: "error-details", pos: i*100 + j, want: fmt.Sprintf("request #%d: did not survive round-trip", j+1), apply: mut(func(ri *conformancev1.ConformancePayload_RequestInfo) {
+								ri.Requests[j] = alt
+							})})
+						}
+					}
+				}
+			}
 			if exp.Error.Details[i].MessageName() != vfReqInfoName {
 				add(vfDeviation{class: "detail-bytes", field: "error-details", pos: i, want: fmt.Sprintf("error detail #%d does not match", i+1), apply: func(a *conformancev1.ClientResponseResult) {
 					d := proto.Clone(a.Error.Details[i]).(*anypb.Any)
@@ -301,6 +345,22 @@ func vfDeviations(def *conformancev1.TestCase) []vfDeviation {
 			}})
 		}
 	}
+	// ---- all response metadata reported on one side where the documented leniency
+	// (unary and client-stream errors) does not apply
+	st := def.GetRequest().GetStreamType()
+	unaryLike := st == conformancev1.StreamType_STREAM_TYPE_UNARY || st == conformancev1.StreamType_STREAM_TYPE_CLIENT_STREAM
+	if exp.Error == nil || !unaryLike {
+		if len(exp.ResponseHeaders) > 0 {
+			add(vfDeviation{class: "meta-misattributed:headers-as-trailers", field: "meta", want: fmt.Sprintf("actual response headers missing %q", strings.ToLower(exp.ResponseHeaders[0].Name)), apply: func(a *conformancev1.ClientResponseResult) {
+				a.ResponseHeaders, a.ResponseTrailers = nil, vfMergeMeta(a.ResponseHeaders, a.ResponseTrailers)
+			}})
+		}
+		if len(exp.ResponseTrailers) > 0 {
+			add(vfDeviation{class: "meta-misattributed:trailers-as-headers", field: "meta", want: fmt.Sprintf("actual response trailers missing %q", strings.ToLower(exp.ResponseTrailers[0].Name)), apply: func(a *conformancev1.ClientResponseResult) {
+				a.ResponseHeaders, a.ResponseTrailers = vfMergeMeta(a.ResponseHeaders, a.ResponseTrailers), nil
+			}})
+		}
+	}
 	// ---- timeout (first payload only: that is where the runner compares it)
 	if len(exp.Payloads) > 0 {
 		ri := exp.Payloads[0].RequestInfo
@@ -333,6 +393,40 @@ func vfDeviations(def *conformancev1.TestCase) []vfDeviation {
 }
 
 const timeoutGraceModel = 500 // documented grace window in ms
+
+// vfMutDetailReqInfo rewrites the RequestInfo packed in the i-th error detail.
+func vfMutDetailReqInfo(a *conformancev1.ClientResponseResult, i int, f func(ri *conformancev1.ConformancePayload_RequestInfo)) {
+	if a.Error == nil || i >= len(a.Error.Details) {
+		return
+	}
+	ri := &conformancev1.ConformancePayload_RequestInfo{}
+	if a.Error.Details[i].UnmarshalTo(ri) != nil {
+		return
+	}
+	f(ri)
+	if d, err := anypb.New(ri); err == nil {
+		a.Error.Details[i] = d
+	}
+}
+
+// vfMergeMeta: one bag of metadata; per name, header values followed by trailer values.
+func vfMergeMeta(headers, trailers []*conformancev1.Header) []*conformancev1.Header {
+	merged := vfCloneHeaders(headers)
+	for _, tr := range trailers {
+		found := false
+		for _, m := range merged {
+			if strings.EqualFold(m.Name, tr.Name) {
+				m.Value = append(m.Value, tr.Value...)
+				found = true
+				break
+			}
+		}
+		if !found {
+			merged = append(merged, proto.Clone(tr).(*conformancev1.Header))
+		}
+	}
+	return merged
+}
 
 // canonicalModel: comma-splitting with a single optional space around commas.
 func canonicalModel(vals []string) []string {
@@ -480,7 +574,31 @@ func vfApplyLenient(def *conformancev1.TestCase, a *conformancev1.ClientResponse
 		a.Error.Message = proto.String(fmt.Sprintf("some message %d", op.A))
 		return "any-message"
 	case "timeout-window":
-		if devField == "timeout" || len(exp.Payloads) == 0 || len(a.Payloads) == 0 {
+		if devField == "timeout" {
+			return ""
+		}
+		if len(exp.Payloads) == 0 || len(a.Payloads) == 0 {
+			// echoed timeout inside a RequestInfo error detail
+			if devField == "error-details" || devField == "error" || exp.Error == nil || a.Error == nil || len(exp.Error.Details) != len(a.Error.Details) {
+				return ""
+			}
+			for i, d := range exp.Error.Details {
+				eri := &conformancev1.ConformancePayload_RequestInfo{}
+				if d.MessageName() != vfReqInfoName || d.UnmarshalTo(eri) != nil || eri.TimeoutMs == nil {
+					continue
+				}
+				t := eri.GetTimeoutMs()
+				lo := t - timeoutGraceModel
+				if lo < 0 {
+					lo = 0
+				}
+				v := lo + int64(op.B)%(t-lo+1)
+				if op.A%3 == 0 {
+					v = lo
+				}
+				vfMutDetailReqInfo(a, i, func(ri *conformancev1.ConformancePayload_RequestInfo) { ri.TimeoutMs = proto.Int64(v) })
+				return "timeout-window"
+			}
 			return ""
 		}
 		ri := exp.Payloads[0].RequestInfo
